@@ -74,9 +74,10 @@ Qed.
 
 Lemma safe_restore_volume uid scope acc volume : Forall wf_tf acc -> TT (restore_volume uid scope acc volume) (Forall wf_tf).
 Proof.
-  intros Hacc. unfold restore_volume. eapply T_bind; [apply (safe_valid_to_be_read L Hscan)|]. intros r _.
+  intros Hacc. unfold restore_volume, restore_top1.
   eapply T_bind with (Q' := Forall wf_tf).
-  - destruct r; try (apply T_ret; exact Hacc). apply safe_restore_scan_dir. exact Hacc.
+  - eapply T_bind; [apply (safe_valid_to_be_read L Hscan)|]. intros r _.
+    destruct r; try (apply T_ret; exact Hacc). apply safe_restore_scan_dir. exact Hacc.
   - intros acc1 H1. apply safe_restore_scan_dir. exact H1.
 Qed.
 
